@@ -267,13 +267,26 @@ def _c3(cls: Class) -> List[Class]:
     return [cls] + merge([b.mro() for b in cls.bases] + [list(cls.bases)])
 
 
+class _ConstRight(ast.NodeTransformer):
+    """`CONST == x` / `CONST != x`  ->  `x == CONST` / `x != CONST` (the
+    rules match comparisons with the constant on the right)."""
+
+    def visit_Compare(self, node):
+        self.generic_visit(node)
+        if len(node.ops) == 1 and isinstance(node.ops[0], (ast.Eq, ast.NotEq)) \
+                and isinstance(node.left, ast.Constant) and \
+                not isinstance(node.comparators[0], ast.Constant):
+            node.left, node.comparators = node.comparators[0], [node.left]
+        return node
+
+
 class Module(object):
     def __init__(self, name, path, relpath, source):
         self.name = name
         self.path = path
         self.relpath = relpath
         self.source = source
-        self.tree = ast.parse(source, filename=path)
+        self.tree = _ConstRight().visit(ast.parse(source, filename=path))
         self.functions: Dict[str, Func] = {}
         self.classes: Dict[str, Class] = {}
         # local name -> ('module', dotted) | ('symbol', module, name)
@@ -441,6 +454,14 @@ class Program(object):
                 continue
             for q, ren in alpha.normalise_module(m.tree, rtree):
                 self.alpha_renamed.append((m.name, q, ren))
+            if not os.environ.get('SA_NO_INLINE'):
+                from . import inline
+                cur_f, ref_f = alpha._functions(m.tree), alpha._functions(rtree)
+                for q, fn in cur_f.items():
+                    if q in ref_f and ast.dump(fn) != ast.dump(ref_f[q]):
+                        for x in inline.forward_new_temps(fn, ref_f[q]):
+                            self.inlined.append((m.name, q,
+                                                 'temporary %s' % x))
 
     # -- lookups -----------------------------------------------------------
 
